@@ -984,4 +984,68 @@ def check_split_model(ctx, prog):
         else:
             n += 1
             ctx.check(bad is None, 'C03.split', f['pq'], role, fwhere(f), 'interpreted on %d (text, separator) pairs' % runs, bad or '')
+    n += check_split_dic(ctx, prog)
     ctx.floor('C03.split overloads interpreted', n, 1)
+
+
+def check_split_dic(ctx, prog, rule='C03.split'):
+    """split(sep1, sep2) -> dictionary (the routine behind Url::parseQuery and form bodies) interpreted on every text over
+    {a, b, '=', '&'} up to 6 characters with ("&", "=") and on a few longer ones with two-character separators: a pair
+    contributes key = text before the FIRST sep2 and value = everything after it (a value may contain sep2: base64 padding, nested
+    URLs); pairs without sep2 or with an empty key contribute nothing; a later pair with the same key wins."""
+    import scansim, itertools
+    fs = [g for g in prog.fn('asl::String::split', '(const asl::String &,const asl::String &)const') if g.get('body')]
+    if not fs:
+        return 0
+    f = fs[0]
+    ctx.analysed(f)
+    role = 'split(sep1, sep2):keys and values of the byte-string model'
+
+    def model(text, s1, s2):
+        d = {}
+        for pair in text.split(s1):
+            j = pair.find(s2)
+            if j > 0:
+                d[pair[:j]] = pair[j + len(s2):]
+        return d
+    cases = []
+    for L in range(0, 7):
+        for t in itertools.product('ab=&', repeat=L):
+            t = ''.join(t)
+            if L <= 4 or (t.count('=') >= 1 and t.count('a') + t.count('b') <= 3):
+                cases.append((t, '&', '='))
+    cases += [('a::1;;b::2::3;;::x;;c', ';;', '::'), ('k=v==&token=YWJj==&u=/a?b=c', '&', '=')]
+    bad = und = None
+    runs = 0
+    for text, s1, s2 in cases:
+        bufs = {'T': [ord(c) for c in text] + [0]}
+        r = scansim.Run(prog, f, bufs, call_ptrs={'str': ('P', 'T', 0)}, methods={'*': 'interp'}, mems={'_len': len(text)}, objects=True)
+        for k, sep in ((0, s1), (1, s2)):
+            pid = f['params'][k]['id']
+            bufs[('O', pid)] = [ord(c) for c in sep] + [0]
+            r.objlen[pid] = len(sep)
+            r.strobjs.add(pid)
+        runs += 1
+        shown = '"%s".split("%s", "%s")' % (text, s1, s2)
+        try:
+            ret = r.run()
+        except scansim.OOB as o:
+            bad = '%s: %s' % (shown, o)
+            break
+        except (scansim.Unsupported, TypeError, KeyError, IndexError, ValueError) as u:
+            und = '%s: %s' % (shown, u)
+            break
+        if not (isinstance(ret, tuple) and ret[0] == 'DICT' and ret[1] in r.dicts):
+            und = '%s: result is not a modelled dictionary' % shown
+            break
+        got = dict((''.join(chr(c & 255) for c in k), ''.join(chr(c & 255) for c in v)) for k, v in r.dicts[ret[1]].items())
+        want = model(text, s1, s2)
+        if got != want:
+            bad = '%s gives %s, the model gives %s: the application sees parameters that are not the ones sent' % (shown, got, want)
+            break
+    ctx.evaluations += runs
+    if und:
+        ctx.undecided(rule, f['pq'], role, fwhere(f), 'outside the interpreted fragment: %s' % und)
+        return 0
+    ctx.check(bad is None, rule, f['pq'], role, fwhere(f), 'interpreted on %d texts' % runs, bad or '')
+    return 1
